@@ -45,7 +45,9 @@ type verifOutcome struct {
 
 func verifParseAll(data []byte) verifOutcome {
 	var o verifOutcome
-	pipe := ParseRdb(bytes.NewReader(data), nil, 8)
+	// the hand-over buffer between parser and replay may be roomy or tight (a parser that runs ahead of
+	// a slow replay finds it full)
+	pipe := ParseRdb(bytes.NewReader(data), nil, []int{8, 1}[verifChoose("pipeSize", 2)])
 	for e := range pipe {
 		switch {
 		case e.Err != nil:
